@@ -186,7 +186,9 @@ fnv1a (const unsigned char *d, size_t n)
 #define HK_REQ      0x80000000u
 #define H_IDX(h)    ((int) ((unsigned) (h) & 0x03ffffffu))
 
+#ifndef TRACE_MAXPAYLOAD
 #define TRACE_MAXPAYLOAD 4096
+#endif
 
 enum
 { K_NONE =
